@@ -30,6 +30,9 @@ struct Cx<'a> {
     let_counts: std::collections::HashMap<String, usize>,
     let_hints_used: Vec<String>,
     arm_ord: usize,
+    kind_ord: std::collections::HashMap<&'static str, usize>,
+    kloops_seen: Vec<(String, usize)>,
+    loop_stack: Vec<(String, usize)>, // (label kind#k, arm counter inside that loop)
 }
 
 fn pat_idents(p: &syn::Pat, out: &mut Vec<String>) {
@@ -194,17 +197,27 @@ impl<'a> Cx<'a> {
         }
     }
 
-    fn loop_spec(&mut self, ord: usize) -> Option<(Option<String>, String)> {
+    fn loop_spec_k(&mut self, ord: usize, kind: &'static str) -> Option<(Option<String>, String)> {
         self.loops_seen.push(ord);
+        let k = *self.kind_ord.get(kind).unwrap_or(&0);
+        self.kind_ord.insert(kind, k + 1);
+        self.kloops_seen.push((kind.to_string(), k));
+        if let Some(l) = self.slot.kloops.iter().find(|l| l.0 == kind && l.1 == k) {
+            return Some((l.2.clone(), l.3.clone()));
+        }
         self.slot.loops.iter().find(|l| l.0 == ord).map(|l| (l.1.clone(), l.2.clone()))
     }
 
     fn hint_for_loop(&mut self, ord: usize, body: &syn::Block) {
+        let (kind, k) = self.kloops_seen.last().cloned().unwrap_or(("".into(), 0));
         let start_key = format!("loop_start {}", ord);
         let end_key = format!("loop_end {}", ord);
-        let hs: Vec<(String, String)> = self.slot.hints.iter().filter(|h| h.0 == start_key || h.0 == end_key).cloned().collect();
+        let kstart = format!("loop_start {}#{}", kind, k);
+        let kend = format!("loop_end {}#{}", kind, k);
+        let hs: Vec<(String, String)> = self.slot.hints.iter().filter(|h| h.0 == start_key || h.0 == end_key || h.0 == kstart || h.0 == kend).cloned().collect();
         for (w, t) in hs {
-            if w == start_key {
+            self.let_hints_used.push(w.clone());
+            if w == start_key || w == kstart {
                 let open = body.brace_token.span.open().byte_range().end;
                 self.insert(open, format!(" {} ", t));
             } else {
@@ -392,7 +405,12 @@ impl<'a, 'ast> Visit<'ast> for Cx<'a> {
         // structural hint anchors: arm_start K / arm_end K (arms counted in source order)
         let ord = self.arm_ord;
         self.arm_ord += 1;
-        let keys = [format!("arm_start {}", ord), format!("arm_end {}", ord)];
+        let mut keys = vec![format!("arm_start {}", ord), format!("arm_end {}", ord)];
+        if let Some((label, n)) = self.loop_stack.last_mut() {
+            keys.push(format!("arm_start {}.{}", label, n));
+            keys.push(format!("arm_end {}.{}", label, n));
+            *n += 1;
+        }
         let hs: Vec<(String, String)> = self.slot.hints.iter().filter(|h| keys.contains(&h.0)).cloned().collect();
         for (w, t) in hs {
             match &*a.body {
@@ -490,7 +508,7 @@ impl<'a, 'ast> Visit<'ast> for Cx<'a> {
             let s = c.or1_token.span().byte_range().start;
             let e = c.body.span().byte_range().start;
             // by-value bindings under & in params still need their lets
-            let mut scratch = Cx { src: self.src, slot: self.slot, retarget: self.retarget, edits: vec![], log: vec![], seq: 0, err: None, loop_ord: 0, closure_ord: 0, base_line: self.base_line, loops_seen: vec![], closures_seen: vec![], let_counts: Default::default(), let_hints_used: vec![], arm_ord: 0 };
+            let mut scratch = Cx { src: self.src, slot: self.slot, retarget: self.retarget, edits: vec![], log: vec![], seq: 0, err: None, loop_ord: 0, closure_ord: 0, base_line: self.base_line, loops_seen: vec![], closures_seen: vec![], let_counts: Default::default(), let_hints_used: vec![], arm_ord: 0, kind_ord: Default::default(), kloops_seen: vec![], loop_stack: vec![] };
             // names of the header's parameters, positionally
             let hdr_names: Vec<String> = {
                 let h = header.trim();
@@ -570,7 +588,7 @@ impl<'a, 'ast> Visit<'ast> for Cx<'a> {
         self.loop_ord += 1;
         let mut derefs = vec![];
         self.pat(&f.pat, false, &mut derefs);
-        let spec = self.loop_spec(ord);
+        let spec = self.loop_spec_k(ord, "for");
         let open = f.body.brace_token.span.open().byte_range();
         if contains_continue(&f.body) {
             // N13: for PAT in EXPR { .. }  =>  { let mut __it = IntoIterator::into_iter(EXPR); while let Some(PAT) = __it.next() <spec> { .. } }
@@ -603,30 +621,39 @@ impl<'a, 'ast> Visit<'ast> for Cx<'a> {
             self.insert(open.end, format!(" {}", lets));
         }
         self.hint_for_loop(ord, &f.body);
+        let __lbl = self.kloops_seen.last().map(|(k, n)| format!("{}#{}", k, n)).unwrap_or_default();
+        self.loop_stack.push((__lbl, 0));
         self.visit_block(&f.body);
+        self.loop_stack.pop();
     }
 
     fn visit_expr_while(&mut self, w: &'ast syn::ExprWhile) {
         let ord = self.loop_ord;
         self.loop_ord += 1;
-        if let Some((_, clauses)) = self.loop_spec(ord) {
+        if let Some((_, clauses)) = self.loop_spec_k(ord, "while") {
             let open = w.body.brace_token.span.open().byte_range();
             self.insert(open.start, format!("{} ", clauses));
         }
         self.hint_for_loop(ord, &w.body);
+        let __lbl = self.kloops_seen.last().map(|(k, n)| format!("{}#{}", k, n)).unwrap_or_default();
+        self.loop_stack.push((__lbl, 0));
         self.visit_expr(&w.cond);
         self.visit_block(&w.body);
+        self.loop_stack.pop();
     }
 
     fn visit_expr_loop(&mut self, l: &'ast syn::ExprLoop) {
         let ord = self.loop_ord;
         self.loop_ord += 1;
-        if let Some((_, clauses)) = self.loop_spec(ord) {
+        if let Some((_, clauses)) = self.loop_spec_k(ord, "loop") {
             let open = l.body.brace_token.span.open().byte_range();
             self.insert(open.start, format!("{} ", clauses));
         }
         self.hint_for_loop(ord, &l.body);
+        let __lbl = self.kloops_seen.last().map(|(k, n)| format!("{}#{}", k, n)).unwrap_or_default();
+        self.loop_stack.push((__lbl, 0));
         self.visit_block(&l.body);
+        self.loop_stack.pop();
     }
 
     fn visit_expr_macro(&mut self, m: &'ast syn::ExprMacro) {
@@ -760,7 +787,7 @@ pub fn rewrite_body(slot: &SlotSpec, found: &Found, retarget: &[(String, String)
         text = text.replacen(a.as_str(), b, 1);
     }
     let block: syn::Block = syn::parse_str(&text).map_err(|e| Undecided(format!("body does not parse: {}", e)))?;
-    let mut cx = Cx { src: &text, slot, retarget, edits: vec![], log: vec![], seq: 0, err: None, loop_ord: 0, closure_ord: 0, base_line: found.body_line_start, loops_seen: vec![], closures_seen: vec![], let_counts: Default::default(), let_hints_used: vec![], arm_ord: 0 };
+    let mut cx = Cx { src: &text, slot, retarget, edits: vec![], log: vec![], seq: 0, err: None, loop_ord: 0, closure_ord: 0, base_line: found.body_line_start, loops_seen: vec![], closures_seen: vec![], let_counts: Default::default(), let_hints_used: vec![], arm_ord: 0, kind_ord: Default::default(), kloops_seen: vec![], loop_stack: vec![] };
     for st in &block.stmts {
         cx.visit_stmt(st);
     }
@@ -806,9 +833,8 @@ pub fn rewrite_body(slot: &SlotSpec, found: &Found, retarget: &[(String, String)
                 bail!("lost anchor: hint `{}`: no such let binding", w);
             }
         } else if w.starts_with("loop_start ") || w.starts_with("loop_end ") {
-            let n: usize = w.split_whitespace().nth(1).and_then(|x| x.parse().ok()).unwrap_or(usize::MAX);
-            if !cx.loops_seen.contains(&n) {
-                bail!("lost anchor: hint for loop {} but the body has {} loops", n, cx.loops_seen.len());
+            if !cx.let_hints_used.contains(w) {
+                bail!("lost anchor: hint `{}` but the body has no such loop ({} loops)", w, cx.loops_seen.len());
             }
         } else {
             bail!("unknown hint position `{}`", w);
@@ -824,6 +850,11 @@ pub fn rewrite_body(slot: &SlotSpec, found: &Found, retarget: &[(String, String)
     for (n, _, _) in &slot.loops {
         if !cx.loops_seen.contains(n) {
             bail!("lost anchor: loop {} has a contract but the body has {} loops", n, cx.loops_seen.len());
+        }
+    }
+    for (k, n, _, _) in &slot.kloops {
+        if !cx.kloops_seen.contains(&(k.clone(), *n)) {
+            bail!("lost anchor: {} loop #{} has a contract but the body has no such loop", k, n);
         }
     }
     for (n, _) in &slot.closures {
